@@ -122,6 +122,7 @@ class Monitors(object):
 
     def _wrap_apply(self, p, fid, meth):
         from .common import SimKill
+        from .clustersim import canon_value
 
         def wrapper(*args, **kwargs):
             if p.dead:
@@ -129,12 +130,15 @@ class Monitors(object):
             pos = p.obj.raftLastApplied + 1
             kw = dict(kwargs)
             kw.pop('_doApply', None)
+            # canonical copies now: the method may keep (and later mutate) the argument objects
+            args_c = canon_value(tuple(args))
+            kw = canon_value(kw)
             try:
                 r = meth(*args, **kwargs)
             except Exception as e:
-                p.events.append(('apply', pos, fid, args, kw, ('exc', type(e).__name__)))
+                p.events.append(('apply', pos, fid, args_c, kw, ('exc', type(e).__name__)))
                 raise
-            p.events.append(('apply', pos, fid, args, kw, ('ret', r)))
+            p.events.append(('apply', pos, fid, args_c, kw, ('ret', canon_value(r))))
             return r
         return wrapper
 
@@ -509,12 +513,12 @@ class Monitors(object):
                 dfid, dargs, dkw = dec[0], dec[1], {}
             else:
                 dfid, dargs, dkw = dec
-            if dfid != fid or canon_value(tuple(dargs)) != canon_value(tuple(args)) or canon_value(dkw) != canon_value(kw):
+            if dfid != fid or canon_value(tuple(dargs)) != args or canon_value(dkw) != kw:
                 raise Violation('C01', 'apply_differs_from_committed',
                                 '%r executed method %r%r at position %d, committed entry is %r%r' % (p, fid, args, pos, dfid, dargs))
             m = self.mret.get(pos)
             if m is not None:
-                got = (out[0], canon_value(out[1]) if out[0] == 'ret' else out[1])
+                got = (out[0], out[1])
                 if got != m:
                     raise Violation('C01', 'apply_result_differs', '%r position %d returned %r, reference model %r' % (p, pos, got, m))
             if out[0] == 'exc':
